@@ -185,6 +185,11 @@ DATE = Palette("date", "date", [D(1, 1, 1), D(1969, 12, 31), D(1970, 1, 1), D(99
 DATETIME = Palette("datetime", "datetime",
                    [DT(1, 1, 1), DT(1969, 12, 31, 23, 59, 59, 999999), DT(1970, 1, 1), DT(9999, 12, 31, 23, 59, 59)],
                    na=None, full_dtype="datetime64[us]")
+# nanosecond resolution (what the CSV / Parquet readers produce for timestamps); NumPy turns these into integers in tolist()
+DATETIME_NS = Palette("datetime/ns", "datetime",
+                      [np.datetime64("1700-01-01T00:00:00", "ns"), np.datetime64("1969-12-31T23:59:59.999999", "ns"),
+                       np.datetime64("1970-01-01T00:00:00", "ns"), np.datetime64("2262-01-01T00:00:00", "ns")],
+                      na=np.datetime64("NaT"), as_array=True, full_dtype="datetime64[ns]")
 TIMEDELTA = Palette("timedelta", "timedelta",
                     [np.timedelta64(-5, "s"), np.timedelta64(0, "s"), np.timedelta64(3, "s"), np.timedelta64(10**9, "s")],
                     na=np.timedelta64("NaT"), as_array=True, full_dtype="timedelta64[s]")
@@ -194,7 +199,7 @@ OBJ_INT = Palette("obj/int", "obj", [-10, 2, 9, 100], na=None, dtype=object)
 
 ALL = [FLOAT_INF, FLOAT_BIG, FLOAT_HUGE, FLOAT_HASH, INT_SMALL, INT_BIG, INT_HASH, UINT8, STR_SHORT, STR_LONG, STR_MIXED, STR_FIXED,
        STR_ASTRAL, BOOL, DATE, DATETIME, TIMEDELTA, BYTES, OBJ_INT]
-BY_NAME = {p.name: p for p in ALL + [BOOL_OBJ]}
+BY_NAME = {p.name: p for p in ALL + [BOOL_OBJ, DATETIME_NS]}
 
 
 def render(x):
